@@ -94,4 +94,25 @@ example : lisFunc cmpInt [3, 1, 4, 1, 5, 9, 2, 6, 5, 3, 5] = some [1, 2, 3, 5] :
 example : lndsFunc cmpInt [3, 1, 4, 1, 5, 9, 2, 6, 5, 3, 5] = some [1, 1, 2, 3, 5] := by decide
 example : lisFunc (fun a b => cmpInt b a) [3, 1, 4, 1, 5, 9, 2, 6, 5, 3, 5] = some [9, 6, 5, 3] := by decide
 
+/-! ### the regenerated facts -/
+
+/-- **C12_current.**  The facts regenerated from `slice/lis.go` (`Gen.Slice`, written by
+`extract/slice.go` on every run) are the pinned ones: `LNDSFunc` takes the fast path on `cmp … >= 0` and
+searches with `bisectRight`, `LISFunc` takes it on `cmp … > 0` and searches with
+`slices.BinarySearchFunc`; both test `replaceIdx == 0`; `bisectRight` goes left on `cmp … > 0`; and the
+extractor recognised the statement skeleton of `LNDSFunc`, `LISFunc` and `bisectRight` (the rest of the
+text the model mirrors).  `Model.Lis` is built from these definitions (`Proofs/LisDefs.lean` restates it
+with the expressions written out), so `lis_spec`/`lnds_spec` are about the tests that are in the source
+now; a change of one of them changes `Gen/Slice.lean` and this theorem and `lisStep_def` stop compiling. -/
+theorem C12_current :
+    MdsVerif.Gen.Slice.recognised = true ∧
+    (∀ c, MdsVerif.Gen.Slice.lndsFast c = decide (c ≥ 0)) ∧
+    MdsVerif.Gen.Slice.lndsUsesBisectRight = true ∧
+    (∀ r, MdsVerif.Gen.Slice.lndsFirst r = decide (r = 0)) ∧
+    (∀ c, MdsVerif.Gen.Slice.lisFast c = decide (c > 0)) ∧
+    MdsVerif.Gen.Slice.lisUsesBisectRight = false ∧
+    (∀ r, MdsVerif.Gen.Slice.lisFirst r = decide (r = 0)) ∧
+    (∀ c, MdsVerif.Gen.Slice.bisectGoLeft c = decide (c > 0)) :=
+  ⟨rfl, fun _ => rfl, rfl, fun _ => rfl, fun _ => rfl, rfl, fun _ => rfl, fun _ => rfl⟩
+
 end MdsVerif.Props.C12
